@@ -51,9 +51,16 @@ WellFormed(l) ==
     /\ (l.typed => l.fmt \in {"google", "numpy"} /\ l.prob = "param" /\ ~l.raw /\ l.k = 0)
     \* longws: the (only) leading blank line carries MORE white space than the docstring's indentation
     /\ (l.longws => ~l.open /\ l.blanks = 1 /\ ~l.raw /\ l.k = 0)
+    \* lead = "title": the docstring opens with a section title (title, underline, blank line), so that its first paragraph -
+    \* the one the summary is made of - is NOT on the first line of the docstring
+    /\ (l.lead = "title" => l.pos = "p1" /\ ~l.raw /\ l.k = 0 /\ ~l.longws /\ ~l.typed)
+    \* tight: the closing quotes stand on the last line of text instead of a line of their own
+    /\ (l.tight => l.fmt = "google" /\ l.prob = "xref" /\ l.pos = "field" /\ l.kind \in {"module", "attribute"}
+                    /\ ~l.raw /\ l.k = 0 /\ ~l.longws /\ l.lead = "none")
 
 Layouts == {l \in [kind : Kinds, fmt : Fmts, prob : Probs, pos : Poss, open : BOOLEAN,
-                   blanks : BlankCounts, indent : Indents, raw : BOOLEAN, k : Ks, typed : BOOLEAN, longws : BOOLEAN] : WellFormed(l)}
+                   blanks : BlankCounts, indent : Indents, raw : BOOLEAN, k : Ks, typed : BOOLEAN, longws : BOOLEAN,
+                   lead : {"none", "title"}, tight : BOOLEAN] : WellFormed(l)}
 
 \* OBS_FILE: {"obs": [[id, lay, lines] ...], "groups": [[index into obs ...] ...]}  (groups: same layout up to k)
 ObsFile  == IF Source = "file" THEN JsonDeserialize(IOEnv.OBS_FILE) ELSE [obs |-> <<>>, groups |-> <<>>]
@@ -85,7 +92,7 @@ TextLine0(l) == IF l.open THEN QuoteLine(l) ELSE QuoteLine(l) + 1 + l.blanks
 \*   0-1 first paragraph, 3-4 second paragraph, 6-7 list item, then the format's own field area
 HasArgs(l) == l.kind \in {"function", "method", "class"}
 \* [first |-> first line of the construct holding the problem, at |-> line of the problem itself]
-Mark(l) ==
+Mark0(l) ==
   CASE l.pos = "p1"   -> [first |-> 0, at |-> 0]
     [] l.pos = "p2l2" -> [first |-> 3, at |-> 4]
     [] l.pos = "item" -> [first |-> 6, at |-> 7]
@@ -99,13 +106,16 @@ Mark(l) ==
             [] l.fmt = "numpy"  /\ l.prob = "param" /\ ~l.typed -> [first |-> 18, at |-> 18]   \* Note(9-12) blank Parameters ---- a desc nosuch
             [] l.fmt = "google" /\ l.prob = "param" /\ l.typed  -> [first |-> 17, at |-> 17]   \* ... Args: a b c nosuch
             [] l.fmt = "numpy"  /\ l.prob = "param" /\ l.typed  -> [first |-> 22, at |-> 22])  \* ... Parameters ---- a d b d c d nosuch
+LeadLen(l) == IF l.lead = "title" THEN 3 ELSE 0
+Mark(l) == [first |-> Mark0(l).first + LeadLen(l), at |-> Mark0(l).at + LeadLen(l)]
 \* number of lines of the cleaned docstring
-DocLen(l) ==
+DocLen0(l) ==
   LET shift == IF l.prob = "unkfield" /\ l.fmt \in {"google", "numpy"} THEN 2 ELSE 0 IN
   CASE l.fmt \in {"epytext", "restructuredtext"} -> IF l.pos = "own" THEN 12 ELSE 11
     [] l.fmt = "google" -> shift + 12 + (IF l.typed THEN 6 ELSE IF HasArgs(l) THEN 3 + (IF l.prob = "param" THEN 1 ELSE 0) ELSE 0)
     [] l.fmt = "numpy"  -> shift + 13 + (IF l.typed THEN 11 ELSE IF HasArgs(l) THEN 5 + (IF l.prob = "param" THEN 2 ELSE 0) ELSE 0)
-CloseLine(l) == TextLine0(l) + DocLen(l)            \* the line of the closing quotes
+DocLen(l) == LeadLen(l) + DocLen0(l)
+CloseLine(l) == TextLine0(l) + DocLen(l) - (IF l.tight THEN 1 ELSE 0)       \* the line of the closing quotes
 
 FirstLine(l) == TextLine0(l) + Mark(l).first
 AtLine(l)    == TextLine0(l) + Mark(l).at
@@ -179,6 +189,9 @@ Offset(l) ==
     [] l.prob \in {"unkfield", "param"} /\ l.fmt = "epytext" -> ParserFirst(l)                \* Field(.., lineno) ; Field.report
     [] l.prob \in {"unkfield", "param"} /\ RstFamily(l)      -> (ParserFirst(l) + 1) - 1      \* restructuredtext.py:282 node.line - 1
 \* model.py:403-408   linenumber = self.docstring_lineno or self.linenumber ; linenumber += lineno_offset
+\* The line does not depend on what was asked of the object before: the summary (made of copies of the first paragraph's
+\* nodes, SummaryExtractor, markup/__init__.py:420-480) may or may not have been extracted when the body is rendered.
+Histories == {"render", "summary;render"}
 ReportedLine(l) == (IF DocstringLine(l) # 0 THEN DocstringLine(l) ELSE ObjLine(l)) + Offset(l) + CleanLead(l)
 
 \* ------------------------------------------------------------------ invariants
@@ -188,13 +201,16 @@ KF_RstLineNotConverted(l, line) == l.fmt = "restructuredtext" /\ l.prob = "marku
 \* known finding (findings.d/C16.json  leading-ws-line-shift): everything is reported one line too low
 KF_LeadingWs(l, line) == l.longws /\ line \notin Acceptable(l) /\ (line - 1) \in Acceptable(l)
 \* known finding (findings.d/C16.json  napoleon-line-beyond-docstring): the line counted in the rewritten text lies past the closing quotes
-KF_Napoleon(l, line) == l.typed /\ line > CloseLine(l) /\ line <= CloseLine(l) + 4
+\* (tight: the "Note:" section of the google template becomes ".. note::" + a blank line, one line more than the source)
+KF_Napoleon(l, line) == (l.typed \/ l.tight) /\ line > CloseLine(l) /\ line <= CloseLine(l) + 4
 DocstringLineRight == DocstringLine(lay) = TextLine0(lay)
 \* design level (enum) : the transcription satisfies the property, up to the known deviation
 ImplAcceptable == Source = "enum" =>
                     (\/ ReportedLine(lay) \in Acceptable(lay) \/ KF_RstLineNotConverted(lay, ReportedLine(lay))
                      \/ KF_LeadingWs(lay, ReportedLine(lay)) \/ KF_Napoleon(lay, ReportedLine(lay)))
 ImplAcceptableStrict == Source = "enum" => ReportedLine(lay) \in Acceptable(lay)
+ReportedLineH(l, h) == ReportedLine(l)
+HistoryIndependent == \A h1, h2 \in Histories : ReportedLineH(lay, h1) = ReportedLineH(lay, h2)
 \* moving the definition down by k moves the report by k
 ImplShift == Source = "enum" => ReportedLine(lay) - ReportedLine([lay EXCEPT !.k = 0]) = lay.k
 
